@@ -256,11 +256,11 @@ theorem run_no_stuck {C : TCtx σ} {init start endS : σ} (hC : TCtxOK C) (hH : 
 end NoStuck
 
 /-- C03 (no `IndexError`), composed for the constructed parser -/
-theorem parse_no_stuck_of_built {P : Parser} {inp : CtorIn} (hB : Built inp P)
+theorem parse_no_stuck_of_built {P : Parser} (hB : Core P)
     (hnd : (P.prods.map (·.1)).Nodup) (hsuf : endSym ∉ P.suffix)
     (raw : List (List Char × List Char)) (fuel : Nat) : P.parse raw fuel ≠ .error .indexError := by
-  have h1 := verifyPart1_ok hB.hV
-  have hendT : endSym ∈ P.terminals := by rw [hB.hterms]; exact mem_sadd.2 (Or.inr rfl)
+  have h1 := hB.hV
+  have hendT : endSym ∈ P.terminals := hB.hendT
   obtain ⟨rank, hC⟩ := tctxOK_of_built hB hnd
   let C := tctxOf P rank (P.tokens raw)
   have hH : NSHyp C startSym P.start endSym := by
